@@ -32,6 +32,10 @@ REDUCE = {"mean", "sum", "max", "min", "amax", "amin", "std", "var", "prod", "ar
 BATCHY = {"B", "N", "E", "T", "P", "S", "H"}
 
 
+class DrawShape(tuple):
+    """Shape () of a single random draw (jax.random.normal / uniform without a shape)."""
+
+
 class ShapeEngine:
     def __init__(self, repo: Repo, batchy=BATCHY, max_depth=3):
         self.repo = repo
@@ -278,6 +282,9 @@ class ShapeEngine:
                 if self.is_shape(a) and self.is_shape(b) and a is not None and b is not None and a and b:
                     return tuple(a[:-1]) + tuple(b[1:]) if len(b) > 1 else tuple(a[:-1])
                 return None
+            for x_, y_ in ((a, b), (b, a)):
+                if isinstance(x_, DrawShape) and self.is_shape(y_) and y_ is not None and any(d not in (1, None) for d in y_):
+                    self.alarm(mi, e, "shared-draw", f"one random number is broadcast over an array of shape {y_}: all components receive the same noise", qual)
             return self.broadcast([a if self.is_shape(a) or a is None else None, b if self.is_shape(b) or b is None else None], mi, e, qual)
         if isinstance(e, ast.Compare):
             vals = [self.ev(e.left, env, ctx)] + [self.ev(c, env, ctx) for c in e.comparators]
@@ -697,7 +704,8 @@ class ShapeEngine:
         if short in ("zeros", "ones", "empty", "full", "normal", "uniform"):
             shp = kw.get("shape", e.args[1] if short in ("normal", "uniform") and len(e.args) > 1 else (e.args[0] if e.args and short not in ("normal", "uniform") else None))
             if shp is None:
-                return ()
+                # a single random number; marked so that broadcasting it over an array is visible (one draw shared by all components)
+                return DrawShape() if short in ("normal", "uniform") and ("random." in (name or "") or name == short) else ()
             v = self.ev(shp, env, ctx)
             d = self.dims_of_value(v)
             if d is not None:
